@@ -70,6 +70,10 @@ func JS(in string) string {
 		if (c >= 65 && c <= 90) || (c >= 97 && c <= 122) || (c >= 48 && c <= 57) || c == 44 || c == 46 || c == 95 {
 			// a-zA-Z0-9,._
 			out.WriteRune(c)
+		} else if c > 0xFFFF {
+			// Outside the BMP: \u takes exactly four hex digits, so a UTF-16 surrogate pair is needed.
+			c -= 0x10000
+			fmt.Fprintf(out, "\\u%04X\\u%04X", 0xD800+(c>>10), 0xDC00+(c&0x3FF))
 		} else {
 			// UTF-8
 			fmt.Fprintf(out, "\\u%04X", c)
